@@ -298,7 +298,7 @@ def run_c13(tier, seed):
                           'table unit or another length unit (AU/pc/cm), bare AU numbers or quantities for SED.interpolate; interpolate_variable at filter '
                           'wavelengths (filters in random order); distinct = (n_ap, units, request kinds)')
     rng = np.random.default_rng(seed + 13)
-    n = 60 if tier == 'quick' else 2000
+    n = 400 if tier == 'quick' else 4000
     for t in range(n):
         n_ap = int(rng.integers(1, 9))
         kinds = []
